@@ -621,6 +621,9 @@ def _fit_daily(case, col, stats):
     from .. import datasets
 
     df = datasets.daily_frame(days=365, noise=case["noise"])
+    if case.get("export"):
+        # a PV customer: every fourth day the site exports more than it uses (negative usage), the yearly mean stays positive
+        df["observed"] = df["observed"] - np.where(np.arange(len(df)) % 4 == 0, 1.6 * float(df["observed"].mean()), 0.0)
 
     def data():
         if case["family"] == "daily":
@@ -778,6 +781,10 @@ def fit_cases(tier):
     if tier == "thorough":
         for fam in ("billing", "daily"):
             out.append({"kind": "fit", "family": fam, "thr": "hi", "noise": 0.02})
+    # net-metered sites: usage below zero on some days (exports), positive on average
+    for fam in ("billing", "daily"):
+        for thr in (("lo",) if tier == "quick" else ("lo", "hi")):
+            out.append({"kind": "fit", "family": fam, "thr": thr, "noise": 0.3, "export": True})
     return out
 
 
